@@ -59,18 +59,24 @@ def cfspec(is_async, sig, outs, tail):
     return f'{{| f_iscoro := {coq_bool(is_async)}; f_sig := {csig(sig)}; f_outs := {coq_list([cout(o) for o in outs])}; f_tail := {cout(tail)} |}}'
 
 
-def kwstrip(case):
-    """DecoratedFunction/FunctionCall.assert_uses_kwargs on the generated source: no test when the source says *args;
-    the first positional is dropped for methods and whenever more than one decorator line precedes the def"""
+def kwstrip(case, i):
+    """DecoratedFunction/FunctionCall.assert_uses_kwargs for the require_kwargs at level i, as it reads the generated
+    source: no test when the source says *args.  With @ lines: the first positional is dropped for methods and whenever
+    more than one decorator line precedes the def.  Applied by call (no @ lines in the source): the first positional is
+    dropped only when require_kwargs wraps the method itself (getfullargspec of another wrapper shows no `self`;
+    overrides hands the function back unchanged)"""
     if case['sig']['varargs']:
         return 'None'
-    n = 1 if (len(case['stack']) >= 2 or case.get('method')) else 0
+    if case.get('apply', '@') == '@':
+        n = 1 if (len(case['stack']) >= 2 or case.get('method')) else 0
+    else:
+        n = 1 if (case.get('method') and all(l['d'] == 'overrides' for l in case['stack'][i + 1:])) else 0
     return f'(Some {coq_nat(n)})'
 
 
-def clspec(l, case):
+def clspec(l, case, i):
     rules = coq_list([f'("{a}", "{b}")' for a, b in l.get('rules', [])])
-    return (f'{{| l_name := {DN[l["d"]]}; l_rv := {cval(l.get("rv"))}; l_rules := {rules}; l_kwstrip := {kwstrip(case)}; '
+    return (f'{{| l_name := {DN[l["d"]]}; l_rv := {cval(l.get("rv"))}; l_rules := {rules}; l_kwstrip := {kwstrip(case, i)}; '
             f'l_dir := {coq_bool(bool(l.get("dir", True)))} |}}')
 
 
@@ -95,7 +101,7 @@ def coq_case(c):
         return (f'eval_class {DN[c["deco"][:-6]]} {f} {MEMBER[c["member"]]} {ACCESS[c["access"]]} (VObj {self_}) (VCls 0) (VCls 1) '
                 f'{coq_list([cval(x) for x in a])} {k}')
     o = c.get('other') or NO_OTHER
-    return (f'eval_case {coq_list([clspec(l, c) for l in c["stack"]])} {cfspec(c["async"], c["sig"], c["outs"], c["tail"])} '
+    return (f'eval_case {coq_list([clspec(l, c, i) for i, l in enumerate(c["stack"])])} {cfspec(c["async"], c["sig"], c["outs"], c["tail"])} '
             f'{cfspec(o["async"], o["sig"], o["outs"], o["tail"])} {FA[c.get("filter", "default")]} '
             f'{coq_list([ccall(x, c.get("method")) for x in c["calls"]])}')
 
@@ -339,7 +345,8 @@ def gen_stack_case(rng, names, style, is_async=None, tier='quick'):
     method = rng.random() < 0.3
     is_async = rng.random() < 0.45 if is_async is None else is_async
     sig = gen_sig(rng, method)
-    case = {'kind': 'stack', 'stream': style, 'async': is_async, 'method': method, 'sig': sig}
+    case = {'kind': 'stack', 'stream': style, 'async': is_async, 'method': method, 'sig': sig,
+            'apply': '@' if rng.random() < 0.8 else 'call'}
     case['stack'] = [gen_level(rng, d, sig, method, style) for d in names]
     ncalls = rng.choice([1, 1, 2, 3, 4] if tier == 'quick' else [1, 2, 3, 5, 8])
     calls = []
@@ -409,7 +416,7 @@ def gen_stack_cases(rng, tier, scale):
             for style in ('valid', 'near'):
                 for _ in range(reps * scale):
                     cases.append(gen_stack_case(rng, names, style, is_async, tier))
-    n_rand = (1300 if tier == 'quick' else 12000) * scale
+    n_rand = (1300 if tier == 'quick' else 24000) * scale
     for _ in range(n_rand):
         h = rng.choice([1, 2, 2, 3, 3, 4])
         names = [rng.choice(FULL) for _ in range(h)]
@@ -650,7 +657,14 @@ def judge_meta(c, impl, out):
 # ---------------------------------------------------------------------------------------------------------
 def matcher(f, case):
     m = f.get('matcher', {})
-    if not isinstance(case, dict) or case.get('kind') != 'class':
+    if not isinstance(case, dict):
+        return False
+    if m.get('id') == 'require_kwargs_applied_by_call_over_a_wrapper_of_a_method':
+        return (case.get('kind', 'stack') == 'stack' and case.get('apply') == 'call' and bool(case.get('method'))
+                and not case['sig']['varargs']
+                and any(l['d'] == 'require_kwargs' and any(x['d'] != 'overrides' for x in case['stack'][i + 1:])
+                        for i, l in enumerate(case['stack'])))
+    if case.get('kind') != 'class':
         return False
     if m.get('id') == 'for_all_methods_static_or_class_method_through_instance':
         return case['member'] in ('static', 'classm') and case['access'] in ('inst', 'subinst')
@@ -695,6 +709,11 @@ def shrink_candidates(c):
 def run(tier, seed, replay=None):
     ck = Check('C18', tier, seed, UNITS, MODEL, PROPS)
     ck.prepare()
+
+    if tier == 'thorough' and getattr(ck, 'props_ok', False):
+        rc, out, err, dt = sh(['coqchk', '-silent', '-o', '-Q', '.', 'PV', 'PV.Props.C18'], cwd=COQ, timeout=2400)
+        ck.oblige('coqchk:Props.C18', 'proof', rc == 0 and 'Axioms: <none>' in out, (out + err)[-600:] if rc or 'Axioms: <none>' not in out
+                  else f'coqchk -o: no axioms, {dt:.0f}s')
 
     def evaluate(cases):
         impl = ck.run_impl('w_wrappers', cases, timeout=900)
@@ -750,7 +769,7 @@ def run(tier, seed, replay=None):
     unknown = [t for t in found if not any(f['status'] == 'open' and matcher(f, t[0]) for f in ck.findings)]
     if unknown and replay is None and unknown[0][0].get('kind', 'stack') == 'stack':
         cur = unknown[0]
-        for _ in range(4):
+        for _ in range(10):
             cands = shrink_candidates(cur[0])
             if not cands:
                 break
